@@ -33,6 +33,22 @@ type witness struct {
 	Ref      string   `json:"reference"` // the text after the sequence name
 	Command  string   `json:"command"`
 	Expanded string   `json:"expanded,omitempty"`
+	// Locality: "" = no remote execution configured. Otherwise remote execution is configured and the value says which
+	// of the command's target and the dependency is marked local = True: "none-local", "target-local", "dep-local", "both-local".
+	Locality string `json:"locality,omitempty"`
+}
+
+// runsRemotely: the command of the target is executed on a remote worker (core.BuildState.WillRunRemotely(target)).
+func (w *witness) runsRemotely() bool { return w.Locality == "none-local" || w.Locality == "dep-local" }
+
+type stubRemote struct{ core.RemoteClient } // command expansion reaches none of its methods
+
+func remoteState() *core.BuildState {
+	s := core.NewDefaultBuildState()
+	s.Config.Remote.URL = "grpc://127.0.0.1:1"
+	s.Config.Remote.NumExecutors = 4
+	s.RemoteClient = stubRemote{}
+	return s
 }
 
 type shape struct {
@@ -256,6 +272,7 @@ func run(state *core.BuildState, w *witness, sh shape) (res result) {
 	graph := core.NewGraph()
 	t := core.NewBuildTarget(core.NewBuildLabel(w.TPkg, "t"))
 	t.AddOutput("t_out")
+	t.Local = w.Locality == "target-local" || w.Locality == "both-local"
 	graph.AddTarget(t)
 	var d *core.BuildTarget
 	if w.Relation == "file" {
@@ -263,6 +280,7 @@ func run(state *core.BuildState, w *witness, sh shape) (res result) {
 	} else {
 		d = core.NewBuildTarget(core.NewBuildLabel(w.DepPkg, "d"))
 		d.IsBinary = sh.binary
+		d.Local = w.Locality == "dep-local" || w.Locality == "both-local"
 		for i, o := range w.Outs {
 			if sh.named {
 				d.AddNamedOutput(fmt.Sprintf("n%d", i+1), o)
@@ -319,7 +337,10 @@ func expectation(w *witness, sh shape, res *result, cwd string) (wantErr string,
 	if w.Seq == "exe" && !sh.binary {
 		return "not-binary", nil, false
 	}
-	tool := w.Relation == "tool"
+	// A tool is used in place (absolute path under plz-out) when the command runs on this machine. When the command is
+	// executed remotely every input, tools included, is in the action's input root at <package dir>/<output>
+	// (remote/action.go uploadInputDir; tools built with local = True are uploaded there by uploadLocalTarget).
+	tool := w.Relation == "tool" && !w.runsRemotely()
 	isDir := w.Seq == "dir" || w.Seq == "out_dir"
 	out := strings.HasPrefix(w.Seq, "out_")
 	if isDir {
@@ -388,6 +409,8 @@ func verdict(w *witness, sh shape, res *result, cwd string) (class, detail strin
 	// The oracle's own paths must be where the real build puts the files.
 	for _, p := range paths {
 		switch {
+		case w.Locality != "":
+			// remote execution configured: IterSources / FullPaths describe this machine's build directory only
 		case w.Relation == "file" || (w.Relation != "tool" && !strings.HasPrefix(w.Seq, "out_") && w.Seq != "dir"):
 			if !res.provided[p] {
 				return "oracle:path-not-provided-by-IterSources:" + w.Seq + ":" + w.Relation, fmt.Sprintf("expected path %q is not among the paths IterSources provides %v", p, keys(res.provided))
@@ -458,6 +481,9 @@ func verdict(w *witness, sh shape, res *result, cwd string) (class, detail strin
 	}
 	if strings.Contains(w.Ref, "|") && w.Relation == "tool" {
 		return "entry-point:tool:path-not-absolute(entry-point-branch-ignores-tool)", detail
+	}
+	if w.Locality != "" {
+		return "expansion:wrong-path:" + w.Seq + ":" + w.Shape + ":" + w.Relation + ":remote-execution:" + w.Locality, detail
 	}
 	return "expansion:wrong-path:" + w.Seq + ":" + w.Shape + ":" + w.Relation, detail
 }
@@ -542,9 +568,11 @@ func main() {
 		"'|annotation' references are generated for real entry points only (an unknown annotation ends in log.Fatalf, which is a rejection)",
 		"$(dir)/$(out_dir) of a dependency without outputs is not compared (statement silent)",
 		"word splitting follows POSIX sh for a simple command with unset variables; the in-process model is checked against one real bash process on every distinct expansion of the run (skipped if bash is not installed)",
+		"with remote execution configured (locality set): a command that runs remotely finds every input, tools included, at <package dir>/<output> in its input root (remote/action.go uploadInputDir); a command of a local = True target finds sources and dependencies in its build directory and tools at their absolute path; out_* sequences and entry points are not generated there",
 		"names are restricted to those the real parser accepts for genrule outs / package names (checked at start-up through the real asp parser)",
 	}
 	state := core.NewDefaultBuildState()
+	rstate := remoteState()
 	shapeBy := map[string]shape{}
 	for _, s := range shapes {
 		shapeBy[s.name] = s
@@ -555,8 +583,15 @@ func main() {
 	seenExp := map[string]bool{}
 	check := func(w witness) (class, detail string, res result) {
 		sh := shapeBy[w.Shape]
-		res = run(state, &w, sh)
-		res2 := run(state, &w, sh)
+		st := state
+		if w.Locality != "" {
+			st = rstate
+		}
+		if got := st.WillRunRemotely(&core.BuildTarget{Local: w.Locality == "target-local" || w.Locality == "both-local"}); got != w.runsRemotely() {
+			lib.Fatal("harness: WillRunRemotely=%v for locality %q", got, w.Locality)
+		}
+		res = run(st, &w, sh)
+		res2 := run(st, &w, sh)
 		if res.expanded != res2.expanded || res.err != res2.err {
 			lib.Fatal("HARNESS-NONDETERMINISM C37 %+v: %q/%q vs %q/%q", w, res.expanded, res.err, res2.expanded, res2.err)
 		}
@@ -704,6 +739,14 @@ outer:
 								}
 								for _, ref := range refs {
 									emit(witness{Seq: seq, Shape: sh.name, Relation: rel, DepPkg: depPkg, TPkg: tPkg, Outs: outs, Ref: ref, Command: "$(" + seq + " " + ref + ")"})
+									// The same with remote execution configured, for every combination of local = True on the
+									// command's target and on the dependency (sequences that name build-directory inputs only).
+									if strings.HasPrefix(seq, "out_") || strings.Contains(ref, "|") || rel == "none" {
+										continue
+									}
+									for _, loc := range []string{"none-local", "target-local", "dep-local", "both-local"} {
+										emit(witness{Seq: seq, Shape: sh.name, Relation: rel, DepPkg: depPkg, TPkg: tPkg, Outs: outs, Ref: ref, Command: "$(" + seq + " " + ref + ")", Locality: loc})
+									}
 								}
 							}
 						}
